@@ -498,8 +498,11 @@ pub fn gen_itera(c: &mut Ctx) {
             if let Some(tot) = total {
                 if n <= 3 || c.thorough {
                     for a in [0usize, 1, tot / 2, tot - 1, tot, tot + 1] {
-                        for kind in ["count", "last", "max", "min", "fold", "hint"] {
+                        for kind in ["count", "last", "max", "min", "fold", "hint", "vcount", "vlast", "vmax", "vmin", "vfold"] {
                             p!(c, "itera {} {} {} {} 0", ty, n, a, kind);
+                        }
+                        for b in [0usize, 1, 3, tot] {
+                            p!(c, "itera {} {} {} skipcount {}", ty, n, a, b);
                         }
                     }
                 } else {
@@ -539,8 +542,11 @@ fn gen_alla(c: &mut Ctx, what: &str, nmax: usize, total: &dyn Fn(usize) -> usize
             }
         }
         for a in [0usize, 1, 2, tot / 2, tot - 1, tot, tot + 1] {
-            for kind in ["count", "last", "max", "min", "hint"] {
+            for kind in ["count", "last", "max", "min", "hint", "vcount", "vlast", "vmax", "vmin", "vfold"] {
                 p!(c, "{} alla {} {} {} 0", what, n, a, kind);
+            }
+            for b in [0usize, 1, 2, 5, tot] {
+                p!(c, "{} alla {} {} skipcount {}", what, n, a, b);
             }
         }
     }
